@@ -697,3 +697,31 @@ _more("C26", "every bundled terminal a Motor can be linked to (EL7041, EL7332 "
 _more("C28", "accept delays of 26..300 cycles.")
 _more("C29", "byte-string formats (4s, 6s) whose values end or start with "
       "zero bytes.")
+
+# fifth wave
+_more("C01", "unary minus / abs below and above one binary operator (every "
+      "operator, register and memory operands of both signednesses).")
+_more("C03", "comparison operands that are computed expressions (>> // % + "
+      "- * & over 8-byte leaves and small constants, constant first "
+      "included) against every operand kind on the other side, with leaves "
+      "beyond 32 bits and compared values within.")
+_more("C04", "bit-field families: every layout of 2-3 fields in one byte "
+      "(packet and terminal variables; one byte per field for local and "
+      "array-map variables), every field written with in-range, "
+      "out-of-range and negative constants, booleans and run-time values.")
+_more("C07", "guards placed after the program used r9 for something else.")
+_more("C09", "life cycles of program objects: load, write from either side, "
+      "close, load again, further instances of the same class, judged "
+      "against the declared defaults after every load.")
+_more("C12", "long histories on one master object (up to 10 / 13 requests, "
+      "every subset of frames lost or datagrams not processed); bursts of "
+      "up to 34 / 49 concurrent tasks of which one calls roundtrip 1-3 loop "
+      "iterations later.")
+_more("C13", "every placement of format strings and values in the argument "
+      "list that keeps their relative orders.")
+_more("C14", "AL status words with bits above the error flag set (constant "
+      "and changing during the walk).")
+_more("C17", "category types with bit 15 set next to their namesakes; "
+      "SDO-sourced PDO assignment lists of 0-3 slots over {0, A, B, C}.")
+_more("C20", "a mapping ended by an exception in its body (cancellation, "
+      "error).")
